@@ -106,13 +106,38 @@ impl GetResponse for UpReq {
 struct FinalUp {
     staged: Arc<Mutex<Option<Resp>>>,
     seen_flags: Arc<Mutex<Option<(bool, bool)>>>, // (DO, CD) of the forwarded request
+    /// That many calls fail with a transport error before the answer comes
+    /// (the caller asks again on the same request object).
+    fail_calls: Arc<Mutex<u32>>,
 }
 
-impl SendRequest<RequestMessage<Vec<u8>>> for FinalUp {
-    fn send_request(&self, req: RequestMessage<Vec<u8>>) -> Box<dyn GetResponse + Send + Sync> {
-        let staged = self.staged.clone();
-        let seen = self.seen_flags.clone();
+/// A request to `FinalUp` that can be asked again after a failed call.
+struct FinalReq {
+    up: FinalUp,
+    req: RequestMessage<Vec<u8>>,
+}
+
+impl std::fmt::Debug for FinalReq {
+    fn fmt(&self, f: &mut std::fmt::Formatter<'_>) -> std::fmt::Result {
+        write!(f, "FinalReq")
+    }
+}
+
+impl GetResponse for FinalReq {
+    fn get_response(&mut self) -> Pin<Box<dyn Future<Output = Result<Message<Bytes>, Error>> + Send + Sync + '_>> {
+        let staged = self.up.staged.clone();
+        let seen = self.up.seen_flags.clone();
+        let fails = self.up.fail_calls.clone();
+        let req = self.req.clone();
         let fut = async move {
+            {
+                let mut f = fails.lock().unwrap();
+                if *f > 0 {
+                    *f -= 1;
+                    sim::stat("fault.wrapper_upstream_call_failed");
+                    return Err(Error::StreamReadTimeout);
+                }
+            }
             let msg = req.to_message().expect("request");
             *seen.lock().unwrap() = Some((msg.opt().is_some_and(|o| o.dnssec_ok()), msg.header().cd()));
             // (The wrapper may ask more than once - after a cancellation,
@@ -129,9 +154,13 @@ impl SendRequest<RequestMessage<Vec<u8>>> for FinalUp {
             }
             Ok(Message::from_octets(Bytes::from(bytes)).expect("message"))
         };
-        Box::new(UpReq {
-            fut: Some(Box::pin(SyncFut(Box::pin(fut)))),
-        })
+        Box::pin(SyncFut(Box::pin(fut)))
+    }
+}
+
+impl SendRequest<RequestMessage<Vec<u8>>> for FinalUp {
+    fn send_request(&self, req: RequestMessage<Vec<u8>>) -> Box<dyn GetResponse + Send + Sync> {
+        Box::new(FinalReq { up: self.clone(), req })
     }
 }
 
@@ -533,6 +562,7 @@ async fn run(_tier: Tier) {
     let final_up = FinalUp {
         staged: Arc::new(Mutex::new(None)),
         seen_flags: Arc::new(Mutex::new(None)),
+        fail_calls: Arc::new(Mutex::new(0)),
     };
     let wrapper = domain::net::client::validator::Connection::<FinalUp, Vec<u8>, Upstream>::new(final_up.clone(), vc.clone());
     let adversarial = sim::draw("adversarial", 4) != 0;
@@ -814,7 +844,24 @@ async fn run(_tier: Tier) {
             // The caller may drop a pending get_response() and ask again
             // (the trait documents it as cancel safe): same request, same
             // verdict.
-            let out = if sim::chance("wrapper.cancel", 1, 4) {
+            // Or the resolver behind the wrapper fails a call or two (a
+            // timeout on its transport) and the caller asks again on the
+            // same request: the answer that comes then is validated like
+            // any other.
+            let flaky = sim::chance("wrapper.upstream_call_fails", 1, 4);
+            if flaky {
+                *final_up.fail_calls.lock().unwrap() = 1 + sim::draw("wrapper.failed_calls", 2) as u32;
+            }
+            let out = if flaky {
+                let mut tries = 0;
+                loop {
+                    let r = g.get_response().await;
+                    tries += 1;
+                    if r.is_ok() || tries >= 4 {
+                        break r;
+                    }
+                }
+            } else if sim::chance("wrapper.cancel", 1, 4) {
                 let mut tries = 0;
                 loop {
                     let patience = Duration::from_millis(sim::draw("wrapper.cancel_after_ms", 4));
